@@ -87,6 +87,8 @@ func runC17(c *Ctx) {
 		}
 		runSurveyorScenario(c, 30, false)
 		runReqScenario(c, reqScenarioCfg{nops: 30, retryMs: 70, faults: true})
+		// retries disabled (RETRY-TIME 0): the retained request is still the socket's until its reply arrives
+		runReqScenario(c, reqScenarioCfg{nops: 30, retryMs: 0, faults: true, noRetry: true})
 		for _, fl := range repFlavors {
 			runRepScenario(c, fl, 30)
 		}
@@ -541,7 +543,46 @@ func c17FailedSendKeepsMessage(c *Ctx) {
 			}
 		}
 		c.Class(fmt.Sprintf("own %s %s.%s failed-send timedout=%v", st.pkg, st.recv, st.fn, timedOut), true)
+		// a Send that is blocked when the socket is closed fails with the closed error and keeps its message too
+		_ = ctx.SetOption(mangos.OptionSendDeadline, time.Duration(0))
+		_ = proto.SetOption(mangos.OptionSendDeadline, time.Duration(0))
+		if st.fam == "send-ctx" {
+			pipe.Inject(st.inbound)
+			_ = ctx.SetOption(mangos.OptionRecvDeadline, 200*time.Millisecond)
+			if m, err := ctx.RecvMsg(); err == nil {
+				m.Free()
+			}
+		}
+		mb := mangos.NewMessage(300)
+		mb.Header = append(mb.Header, st.hdr(1)...)
+		mb.Body = append(mb.Body, bytes.Repeat([]byte{'b'}, 300)...)
+		blockedErr := make(chan error, 1)
+		go func() { blockedErr <- ctx.SendMsg(mb) }()
+		time.Sleep(3 * time.Millisecond)
 		_ = proto.Close()
+		select {
+		case err := <-blockedErr:
+			if err != nil {
+				if !bytes.Equal(mb.Body, bytes.Repeat([]byte{'b'}, 300)) || mangos.VerifRefcnt(mb) != 1 {
+					c.Violate(fmt.Sprintf("message ownership (%s %s.%s): a Send that was blocked when the socket was closed failed with %v and left the caller's message with %d body bytes and reference count %d", st.pkg, st.recv, st.fn, err, len(mb.Body), mangos.VerifRefcnt(mb)), replay)
+				} else {
+					mb.Free()
+				}
+				c.Class(fmt.Sprintf("own %s %s.%s send-blocked-at-close %v", st.pkg, st.recv, st.fn, err), true)
+			}
+		case <-time.After(2 * time.Second):
+		}
+		// ... and so does a Send on the closed socket
+		ma := mangos.NewMessage(300)
+		ma.Header = append(ma.Header, st.hdr(1)...)
+		ma.Body = append(ma.Body, bytes.Repeat([]byte{'a'}, 300)...)
+		if err := ctx.SendMsg(ma); err != nil {
+			if !bytes.Equal(ma.Body, bytes.Repeat([]byte{'a'}, 300)) || mangos.VerifRefcnt(ma) != 1 {
+				c.Violate(fmt.Sprintf("message ownership (%s %s.%s): Send on a closed socket failed with %v and left the caller's message with %d body bytes and reference count %d", st.pkg, st.recv, st.fn, err, len(ma.Body), mangos.VerifRefcnt(ma)), replay)
+			} else {
+				ma.Free()
+			}
+		}
 		for pipe.Release(mangos.ErrClosed) {
 		}
 		_ = pipe.Close()
